@@ -3,15 +3,37 @@
 Oracle (real library only), three kinds of case:
 
 levels   a valid document (props/_docgen.py) is loaded at levels 0..3 (list entry point; version explicit or
-         inferred).  Every level must accept it; str(g) must be literally equal and lib.obs(g) equal for the four
-         levels.  A difference that (i) involves level 0 only and (ii) vanishes when the tags of the delayed-parsing
-         datatypes (B, J, H) are replaced by their semantic value (own canonicaliser, _docgen.canon_delayed) is the
-         OPEN known finding #30 and is reported as exactly one failure with signature `lazy-spelling`.
+         inferred).  Every level must accept it.  At every level the same five observations are taken, in this order:
+         str(g); lib.obs(g); the value of EVERY field of EVERY line read with line.get (type name and text; referenced
+         lines by record type and name) - this is what any analysis of the graph does, and at level 0 it is the moment
+         when lazily parsed fields (alignments, B/J/H tags, ...) are decoded by the unsafe decoders; str(g) again;
+         lib.obs(g) again.  The five observations must be literally equal for the four levels (signatures
+         levels-differ-text / -obs / -read / -text-after-read / -obs-after-read; a read or a write which raises on a
+         valid document is read-raises-at-level / write-raises-at-level).  A difference that (i) involves level 0 only
+         and (ii) vanishes when the tags of the delayed-parsing datatypes (B, J, H) are replaced by their semantic
+         value (own canonicaliser, _docgen.canon_delayed) is the OPEN known finding #30 and is reported as exactly one
+         failure with signature `lazy-spelling`.
 mono     a document obtained from a valid one by changing one character (or the valid one itself) is loaded at
          levels 0..3; if level k accepts it every level j < k must accept it (acceptance = the constructor returns).
-assign   assignment scripts (enumerated exhaustively, table ASSIGN): for a stand-alone line gfapy.Line(s, vlevel=k)
-         or the same line connected in a small Gfa(vlevel=k), a field f and a value v of known validity
-         (valid / wrong-type / wrong-syntax / out-of-range, decided by the GFA grammar, only clear-cut values):
+assign   assignment scripts (enumerated exhaustively, table ASSIGN x modes): a line of level k, a field f and a value v
+         of known validity (valid / wrong-type / wrong-syntax / out-of-range, decided by the GFA grammar, only
+         clear-cut values).  The line of level k is obtained in one of these ways (mode):
+           standalone          gfapy.Line(s, vlevel=k)
+           connected           the same line in a small Gfa(vlevel=k)
+         and, since the level contract is per Gfa and per Line whatever way the line came into being, lines which a
+         public operation derives from lines / a Gfa of level k (the Gfa was built at level k, nothing else is said
+         to the operation):
+           cloned              line.clone() of the connected line
+           disconnected        the connected line after line.disconnect()
+           merged              the segment created by Gfa.merge_linear_paths() out of the record and a second segment
+                               (both with a sequence); merged-placeholder: neither has a sequence (LN / slen only);
+                               merged-tracked: only the record has one, second segment reversed, options
+                               enable_tracking, merged_name="short", cut_counts
+           multiplied          the copy created by Gfa.multiply("A", 2): of the segment (S records), or of the link /
+                               containment / edge of the multiplied segment (L, C, E records)
+           converted           the corresponding line of Gfa.to_gfa2() / Gfa.to_gfa1() (custom tags only)
+           split-header        the single-tag line of Gfa.headers which carries the tag
+         Then:
          - v valid:   set (line.set(f, v) or attribute assignment), get, field_to_s, str, validate_field, validate never
                       raise at any level and str(line) carries no "# INVALID" marker;
          - v invalid: level 3: the assignment raises a gfapy.Error;
@@ -22,24 +44,33 @@ assign   assignment scripts (enumerated exhaustively, table ASSIGN): for a stand
          An exception that is not a gfapy.Error in any of these steps is reported as `foreign-exception[...]`.
 
 NOT CHECKED:
-  * connected lines: reference fields, fields related to back-references (orientations, positions, overlaps of
-    L/E), identifiers (renaming is C09) and the header VN tag are read-only or special by design: not assigned;
+  * connected lines (and lines derived from them which stay connected: merged, multiplied, converted): reference
+    fields, fields related to back-references (orientations, positions, overlaps of L/E), identifiers (renaming
+    is C09) and the header VN tag are read-only or special by design: not assigned;
   * assignment of a tag whose *name* is invalid, deletion of fields (None), set_datatype; new tags are created
     only with str/int/float/list/dict values whose default datatype is unambiguous;
   * not clear-cut values: int for an f tag, scalars for J, H strings of odd length, an LN inconsistent with the
-    sequence, a `$` position inconsistent with the segment length, lists for H, identifier lists with double spaces;
+    sequence, a `$` position inconsistent with the segment length, lists for H, identifier lists with double spaces
+    (the linear paths of the merged modes are built so that the merged GFA1 segment has length 4 like the record);
   * get() of an invalid value at levels < 3 (the property names the assignment, the write and validate only);
   * alignments spelled non-canonically (not generated), so lazy spelling of positional fields is not exercised;
-  * acceptance in `mono` is the constructor only (a level-0 Gfa may still fail later, when a field is read).
+  * acceptance in `mono` is the constructor only (a level-0 Gfa may still fail later, when a field is read);
+  * in `levels` the fields are read with get() only, in the order of Gfa.lines; the equality of the text before
+    and after reading at one level is not demanded (the property compares levels, not moments);
+  * derived lines: one fixed small graph per operation (no random graphs); a line object built at one level and
+    added to a Gfa of another level, and a change of Gfa.vlevel after construction, are not exercised; converted
+    lines: positional fields and predefined tags (renamed / recomputed by the conversion) are not assigned.
 """
 from harness import lib
 from harness.props import _docgen as D
 
 ID = "C18"
-RULE = ("levels: valid documents <=12 lines (quick) x 4 levels, text+observation compared; mono: one-character mutants of "
+RULE = ("levels: valid documents <=12 lines (quick) x 4 levels; text, observation, the value of every field (get), and "
+        "text+observation after all fields have been read are compared; mono: one-character mutants of "
         "valid documents x 4 levels, acceptance monotone; assign: exhaustive table of (record, field, value kind) x level x "
-        "stand-alone/connected x set()/attribute. Non-trivial: a document with a tag of a delayed datatype or >= 3 "
-        "lines; every assign case.")
+        "origin of the line (stand-alone, connected, cloned, disconnected, merged segment x 3, multiplied copy, "
+        "version-converted, split header) x set()/attribute. Non-trivial: a document with a tag of a delayed datatype "
+        "or >= 3 lines; every assign case.")
 CASE_TIMEOUT = 60
 
 # ----------------------------------------------------------------------------------------------- assignment table
@@ -176,16 +207,27 @@ ASSIGN = [
 #   cloned             line.clone() of the connected line (disconnected copy: every field is assignable)
 #   disconnected       the connected line after line.disconnect()
 #   merged             the segment created by Gfa.merge_linear_paths() from the record (first segment of a linear
-#                      path of two segments, all with a sequence);  merged-placeholder: no segment has a sequence
+#                      path of two segments, all with a sequence);  merged-placeholder: no segment has a sequence;
+#                      merged-tracked: only the record has a sequence, the other segment is reversed, and the
+#                      options enable_tracking, merged_name="short", cut_counts are set
 #   multiplied         the copy of the record created by Gfa.multiply("A", 2) (segment copy, or copy of the link /
 #                      containment / edge of the multiplied segment)
 #   converted          the line of Gfa.to_gfa2() / Gfa.to_gfa1() which corresponds to the record (custom tags only:
 #                      positional fields and predefined tags are renamed / recomputed by the conversion)
 #   split-header       the single-tag header line of Gfa.headers which carries the tag
-DERIVED = ("cloned", "disconnected", "merged", "merged-placeholder", "multiplied", "converted", "split-header")
-MERGE_CTX = {"gfa1": (["S\tBm\tGT\tLN:i:2", "L\tA\t+\tBm\t+\t2M"], ["S\tBm\t*\tLN:i:2", "L\tA\t+\tBm\t+\t2M"]),
-             "gfa2": (["S\tBm\t3\tGTA", "E\t*\tA+\tBm+\t2\t4$\t0\t2\t2M"],
-                      ["S\tBm\t3\t*", "E\t*\tA+\tBm+\t2\t4$\t0\t2\t2M"])}
+DERIVED = ("cloned", "disconnected", "merged", "merged-placeholder", "merged-tracked", "multiplied", "converted",
+           "split-header")
+# mode -> (the record loses its sequence, {version: other lines of the linear path}, options of merge_linear_paths)
+MERGE = {
+    "merged": (False, {"gfa1": ["S\tBm\tGT\tLN:i:2", "L\tA\t+\tBm\t+\t2M"],
+                       "gfa2": ["S\tBm\t3\tGTA", "E\t*\tA+\tBm+\t2\t4$\t0\t2\t2M"]}, {}),
+    "merged-placeholder": (True, {"gfa1": ["S\tBm\t*\tLN:i:2", "L\tA\t+\tBm\t+\t2M"],
+                                  "gfa2": ["S\tBm\t3\t*", "E\t*\tA+\tBm+\t2\t4$\t0\t2\t2M"]}, {}),
+    # one segment with and one without sequence, the second one reversed, origin tracking, short name, counts
+    "merged-tracked": (False, {"gfa1": ["S\tBm\t*\tLN:i:2\tRC:i:4", "L\tA\t+\tBm\t-\t2M"],
+                               "gfa2": ["S\tBm\t3\t*\tRC:i:4", "E\t*\tA+\tBm-\t2\t4$\t1\t3$\t2M"]},
+                       {"enable_tracking": True, "merged_name": "short", "cut_counts": True}),
+}
 
 
 def _custom_tags(text):
@@ -204,7 +246,7 @@ def mode_fields(rec, mode):
         return names
     if mode == "disconnected":
         return names if not rid.startswith("H") else []
-    if mode in ("merged", "merged-placeholder"):
+    if mode in MERGE:
         return [f for f in names if f not in ro] if rid in ("S1", "S2") else []
     if mode == "multiplied":
         return [f for f in names if f not in ro] if rid in ("S1", "S2", "L1", "C1", "E1") else []
@@ -494,15 +536,15 @@ def make_line(gfapy, rec, mode, level, field=None):
     if mode == "standalone":
         return gfapy.Line(text, vlevel=level, version=ver if not text.startswith("#") else None)
     rt = text.split("\t")[0]
-    if mode in ("merged", "merged-placeholder"):
-        ph = mode == "merged-placeholder"
+    if mode in MERGE:
+        ph, others, opts = MERGE[mode]
         if ph:
             text = text.replace("\tACGT", "\t*", 1)
-        g = gfapy.Gfa([text] + MERGE_CTX[ver][1 if ph else 0], vlevel=level, version=ver)
-        g.merge_linear_paths()
-        ln = g.segment("A_Bm")
-        if ln is None or len(g.segments) != 1:
+        g = gfapy.Gfa([text] + others[ver], vlevel=level, version=ver)
+        g.merge_linear_paths(**opts)
+        if len(g.segments) != 1 or g.segments[0].name in ("A", "Bm"):
             raise RuntimeError("merge_linear_paths did not merge A and Bm: %r" % [str(x) for x in g.segments])
+        ln = g.segments[0]
         ln._c18_keepalive = g
         return ln
     if mode == "converted" and ver == "gfa1":
